@@ -249,6 +249,9 @@ class Engine:
                 continue
             if name in mods or name in getattr(st, "rebound", ()):
                 continue
+            dty = self.c.params.get(name, self.c.ghost.get(name))
+            if name in self.c.params and _immutable_ty(dty):
+                continue         # ints, bools, opaque immutable values: rebinding the local name is invisible to the caller
             if cur.ident(old):
                 self.trivial_frames = getattr(self, "trivial_frames", 0) + 1
                 continue
@@ -725,6 +728,12 @@ class Engine:
         if isinstance(op, (ast.Eq, ast.NotEq)):
             r = self.py_eq(a, b, cx)
             return r if isinstance(op, ast.Eq) else z3.Not(r)
+        if isinstance(a, PyOpt) and isinstance(a.value, (PyInt, PyReal)):
+            cx.raise_if(a.is_none, "TypeError")          # None < 0 raises TypeError
+            a = a.value
+        if isinstance(b, PyOpt) and isinstance(b.value, (PyInt, PyReal)):
+            cx.raise_if(b.is_none, "TypeError")
+            b = b.value
         if isinstance(a, (PyInt, PyReal)) and isinstance(b, (PyInt, PyReal)):
             x, y = _num(a), _num(b)
             return {ast.Lt: x < y, ast.LtE: x <= y, ast.Gt: x > y, ast.GtE: x >= y}[type(op)]
@@ -803,6 +812,10 @@ class Engine:
             return PyObj(z3.If(c, a.t, b.t), a.cls if a.cls == b.cls else None)
         if isinstance(a, PyNone) and isinstance(b, PyNone):
             return a
+        if isinstance(a, (PyInt, PyReal, PyBool)) and isinstance(b, PyNone):
+            return PyOpt(z3.Not(c), a, a.ty)
+        if isinstance(a, PyNone) and isinstance(b, (PyInt, PyReal, PyBool)):
+            return PyOpt(c, b, b.ty)
         if isinstance(a, PyNone) and isinstance(b, PyObj):
             return PyObj(z3.If(c, none_term(), b.t))
         if isinstance(a, PyObj) and isinstance(b, PyNone):
@@ -836,6 +849,12 @@ class Engine:
         return self.binop(e.op, a, b, cx, node=e)
 
     def binop(self, op, a, b, cx, inplace=False, node=None):
+        if isinstance(a, PyOpt) and isinstance(a.value, (PyInt, PyReal)):
+            cx.raise_if(a.is_none, "TypeError")          # None + 1 raises TypeError
+            a = a.value
+        if isinstance(b, PyOpt) and isinstance(b.value, (PyInt, PyReal)):
+            cx.raise_if(b.is_none, "TypeError")
+            b = b.value
         if isinstance(a, (PyInt, PyReal)) and isinstance(b, (PyInt, PyReal)):
             both_int = isinstance(a, PyInt) and isinstance(b, PyInt)
             x, y = (a.t, b.t) if both_int else (_num(a, real=True), _num(b, real=True))
@@ -1087,6 +1106,12 @@ class Engine:
 
     def coerce(self, v, ty, cx, what):
         """adapt an actual argument to the callee's declared parameter type"""
+        if isinstance(ty, TTuple) and isinstance(v, PyTuple) and len(v.items) == len(ty.tys):
+            return PyTuple([self.coerce(x, t_, cx, f"{what}[{k_}]") for k_, (x, t_) in enumerate(zip(v.items, ty.tys))])
+        if isinstance(v, PyOpt) and not isinstance(ty, TOpt) and ty is not None:
+            # an Optional value where a definite one is declared: it must not be None here
+            self.emit(f"not-None:{what}", "post", cx.st, z3.Not(v.is_none), getattr(cx.node, "lineno", 0))
+            return self.coerce(v.value, ty, cx, what)
         if isinstance(ty, TOpt):
             if isinstance(v, PyOpt):
                 return v
@@ -1200,6 +1225,12 @@ def _num(v, real=False):
     if isinstance(v, PyInt):
         return z3.ToReal(v.t) if real else v.t
     return v.t
+
+
+def _immutable_ty(ty):
+    if isinstance(ty, TOpt):
+        return _immutable_ty(ty.inner)
+    return isinstance(ty, (TIntCls, TBoolCls, TRealCls, TNoneCls))
 
 
 def _norm(s):
